@@ -175,7 +175,8 @@ def legacy_case(case):
         old.release.name, old.release.version, r["name"], r["version"]))
     check(old.tree.arch == t["arch"] and old.tree.build_timestamp == int(t["build_timestamp"]), "legacy-tree", lambda: "arch/timestamp %r/%r vs %r/%r" % (
         old.tree.arch, old.tree.build_timestamp, t["arch"], int(t["build_timestamp"])))
-    check(t["arch"] in old.tree.platforms and set(desc["images"]) <= set(old.tree.platforms), "legacy-platforms", lambda: "platforms %r" % sorted(old.tree.platforms))
+    want_platforms = sorted(set(t["platforms"]) | set([t["arch"]]) | set(desc["images"]))
+    check(sorted(old.tree.platforms) == want_platforms, "legacy-platforms", lambda: "pre-productmd reader sees platforms %r, the tree has %r" % (sorted(old.tree.platforms), want_platforms))
     uids = sorted(v.uid for v in old.variants.variants.values())
     check(uids == [main_uid], "legacy-main-variant", lambda: "pre-productmd reader sees variants %r, main variant is %r" % (uids, main_uid))
     v = list(old.variants.variants.values())[0]
